@@ -444,10 +444,12 @@ def parseLine(raw, eols=(CRLF, LF, CR ), kind="event line"):
     Raise error if eol not found before MAX_LINE_SIZE
     """
     while True:
-        for eol in eols:  # loop over eols unless found
-            index = raw.find(eol)  # not found index == -1
-            if index >= 0:
-                break
+        index = -1
+        for sep in eols:  # find earliest eol, first listed wins ties
+            idx = raw.find(sep)  # not found idx == -1
+            if idx >= 0 and (index < 0 or idx < index):
+                index = idx
+                eol = sep
 
         if index < 0:  # not found
             if len(raw) > MAX_LINE_SIZE:
@@ -476,10 +478,12 @@ def parseLeader(raw, eols=(CRLF, LF), kind="leader header line", headers=None):
     """
     headers = headers if headers is not None else cimdict()
     while True:  # loop until entire heading indicated by empty line
-        for eol in eols:  # loop over eols unless found
-            index = raw.find(eol)  # not found index == -1
-            if index >= 0:
-                break
+        index = -1
+        for sep in eols:  # find earliest eol, first listed wins ties
+            idx = raw.find(sep)  # not found idx == -1
+            if idx >= 0 and (index < 0 or idx < index):
+                index = idx
+                eol = sep
 
         if index < 0:  # not found
             if len(raw) > MAX_LINE_SIZE:
